@@ -601,15 +601,29 @@ fn roundtrip(r: &Req) -> Result<String, String> {
         s1.solve();
         s2.solve();
         let (a, b) = (&s1.solution, &s2.solution);
-        if a.status != b.status {
-            return Err(format!("status {:?} vs loaded {:?}", a.status, b.status));
-        }
         if exact {
+            // identical internal data: the whole solve is reproduced bit for bit
+            if a.status != b.status {
+                return Err(format!("equilibration off: status {:?} vs loaded {:?}", a.status, b.status));
+            }
             if a.obj_val.to_bits() != b.obj_val.to_bits() || a.iterations != b.iterations || !same_vals(&a.x, &b.x, true) {
                 return Err(format!("equilibration off: solve of the loaded problem is not bit-identical ({:e} vs {:e})", a.obj_val, b.obj_val));
             }
-        } else if matches!(a.status, SolverStatus::Solved) && (a.obj_val - b.obj_val).abs() > 1e-6 * a.obj_val.abs().max(1.0) {
-            return Err(format!("objective {:e} vs loaded {:e}", a.obj_val, b.obj_val));
+        } else {
+            // the loaded data differs from the saved solver's by a few ulps: verdicts must
+            // agree; runs that stop without a verdict (or with a reduced-accuracy one) on a
+            // numerically hard instance are inconclusive
+            let full = |st: SolverStatus| matches!(st, SolverStatus::Solved | SolverStatus::PrimalInfeasible | SolverStatus::DualInfeasible);
+            if full(a.status) && full(b.status) {
+                if a.status != b.status {
+                    return Err(format!("status {:?} vs loaded {:?}", a.status, b.status));
+                }
+                if a.status == SolverStatus::Solved && (a.obj_val - b.obj_val).abs() > 1e-6 * a.obj_val.abs().max(1.0) {
+                    return Err(format!("objective {:e} vs loaded {:e}", a.obj_val, b.obj_val));
+                }
+            } else if a.status != b.status {
+                return Ok("ok:inconclusive".to_string());
+            }
         }
         summary = format!("ok:{:?}", a.status);
     }
